@@ -1042,7 +1042,9 @@ def run(ctx):
                 dyn = kind.startswith("dynesty")
                 prior = rng.choice(["uniform", "gauss"]) if not dyn else "uniform"
                 budget = None if not dyn else 28
-                plans.append((kind, prior, c, budget, ("empty", "half", "random"), 2 if not dyn else 1, 3))
+                # (histories continue for one more run after a crash; two for the searches whose every resumed run samples -
+                # after a resume from a budget-spent BFGS checkpoint the model's content labels are no longer the code's)
+                plans.append((kind, prior, c, budget, ("empty", "half", "random"), 2 if not dyn and kind != "lbfgs_cap" else 1, 3))
     for kind, prior, (rm, cs, ki), budget, modes, depth, chains in plans:
         sc = Scenario(ctx, kind, prior, rm, cs, ki)
         ctx.hit("plan:" + sc.name)
